@@ -1581,6 +1581,24 @@ def C04(tier, seed):
         C.log(f"[C04] TLC {scfg}: {r['states']} distinct states; 2-3 concurrent callers of shutdown(): AfterShutdownAllPresent and "
               f"the liveness property ShutdownReturns hold as coded (join under the mutex); the variant joining outside the "
               f"mutex violates AfterShutdownAllPresent (sanity of the invariant)")
+        # the flusher thread (BufferAndFlush, async with a flush interval): it never ends and flushes at any moment
+        fst = 0
+        for mode in ("direct", "buf", "async"):
+            cfg = f"MCFlwFlush_{mode}.cfg"
+            r = C.run_tlc("MCFlwFlush.tla", os.path.join(C.SPEC, cfg), os.path.join(wd, "mc-" + cfg), workers=6, timeout=1800)
+            if r["violated"] or r["deadlock"]:
+                raise C.ToolError(f"FlwFlush/{cfg} violates {r['violated']} in the intended design")
+            mc_stats.append({"cfg": cfg, "states": r["states"], "transitions": r["transitions"], "wall_s": r["wall_s"]})
+            states += r["states"]
+            transitions += r["transitions"]
+            fst += r["states"]
+        rm = C.run_tlc("MCFlwFlush.tla", os.path.join(C.SPEC, "MCFlwFlush_noflush.cfg"), os.path.join(wd, "mc-flush-mut"), workers=1,
+                       timeout=300)
+        if "C04_AfterShutdown" not in (rm["violated"] or []):
+            raise C.ToolError("FlwFlush: the variant whose shutdown() forgets the final flush must violate C04_AfterShutdown")
+        C.log(f"[C04] TLC FlwFlush.tla (FlwConc + the flusher thread flushing at any moment, also after shutdown): {fst} distinct states; "
+              f"all invariants of FlwConc, NothingInLimbo, AppendOnly and the liveness property hold; the variant whose shutdown() "
+              f"forgets the final flush violates AfterShutdown (sanity of the invariant)")
         r = C.run_tlc("MCFlwConc.tla", os.path.join(C.SPEC, "MCFlwConc_asis.cfg"), os.path.join(wd, "mc-asis"), workers=4, timeout=600)
         asis = r["violated"]
         C.log(f"[C04] TLC MCFlwConc_asis.cfg (as coded): violated invariants: {asis or 'none'}")
